@@ -25,6 +25,6 @@
 //@@ include textdiff_spec.rs
 //@@ include textdiff.rs
 //@@ props ^DiffableStrRef for T::as_diffable_str$|^lemma_entry_pre_bytes$|^lemma_tokpart_ : C04 C02
-//@@ props ^TextDiffConfig::|^IdentifyDistinct::|^Index for OffsetLookup|^Deadline::|^duration_to_deadline$ : C02 C04 C17
-//@@ props ^myers::|^lcs::|^patience::|^diff$|^diff_deadline$|^diff_slices$|^diff_slices_deadline$|^capture_diff : C04 C17
+//@@ props ^TextDiffConfig::|^IdentifyDistinct::|^Index for OffsetLookup|^Deadline::|^duration_to_deadline$ : C02 C04 C17 C05 C09 C11
+//@@ props ^myers::|^lcs::|^patience::|^diff$|^diff_deadline$|^diff_slices$|^diff_slices_deadline$|^capture_diff : C04 C17 C05
 fn main() {}
